@@ -8,38 +8,36 @@ from vlib import Check, VERIF, REPO
 META = {
     "engine": "E1+E2+E3+E4",
     "text": "Coq theorems over an interleaving model of ConcurrentExecutionQueue (execute / signal_push_event / "
-            "start_consumer / consume_until_empty / join at atomic-operation granularity, inner bounded queue as a "
-            "ticketed FIFO whose push is ticket-then-publish exactly as in bounded_queue.hpp), for every client "
-            "program, every number of producers, every capacity, inline and asynchronous executors, every fault list "
-            "of the executor and every schedule: the event counter is non-zero exactly when there is one owner (a "
-            "launched/running consumer or a producer inside start_consumer), hence the consume function never runs in "
-            "two places; every ticket is delivered at most once, in ticket order, producers' items in submission "
-            "order; whenever the counter is zero and its last reset was a consumer's exit, the head ticket of the "
-            "queue (if any) belongs to a producer that has not signalled yet, hence with no execute() in flight "
-            "nothing published is pending, join() then returns only after everything was consumed, and at the end of "
-            "every run every item was consumed exactly once (also after refused launches once a later launch was "
-            "accepted); while the counter is non-zero (join() has to wait) its unique owner is enabled.  The comparison "
-            "operators, CAS operands, initial values and memory orders of execution_queue.h are regenerated on every "
-            "run.  Tie: the real ConcurrentExecutionQueue<uint64_t> with the real ConcurrentBoundedQueue runs under a "
-            "deterministic scheduler pre-empting at every atomic operation, with a harness Executor that refuses "
-            "launches per fault list; each observed outcome (return codes, join result, delivery order) must be one "
-            "the extracted model admits (exhaustive exploration per small program); monitors check the property text "
-            "directly on every run.",
-    "note": "FINDING (signature ticket-gap): the full-strength statements 'a signalled pending item always has a "
-            "running or launched consumer' and 'join() returns only after everything submitted before it was consumed' "
-            "are FALSE of the code even when no launch is refused: try_pop_n stops at a ticket that is taken but not "
-            "yet published, the consumer then resets the counter and exits although later tickets are published and "
-            "signalled; join() of the thread whose execute() already returned 0 returns while its item is unconsumed "
-            "(consumed later, when the slower producer signals).  Proved as c16_never_stranded_refuted / "
-            "c16_join_returns_after_refuted with vm_compute witnesses, replayed on the real code (program 'E,J|E'); "
-            "the proved statements are the _partial ones (they add 'no execute() in flight' resp. 'head ticket "
-            "unsignalled').  Liveness ('and it does return') is proved only as c16_join_returns_partial: whenever join() "
-            "must wait there is exactly one owner of the counter and it can take a step; that every owner reaches its "
-            "exit CAS (the queue drains) and termination under a fair scheduler are not mechanised - the scheduler runs "
-            "and the exhaustive model exploration (no STUCK outcome without a refused launch) cover them empirically.  "
-            "Exactly-once relies on C01 (the inner queue delivers each ticket's value to the pop of that ticket).  "
-            "Trusted: Coq kernel; translator; extraction + OCaml explorer; macro shim and dsched (sequentially "
-            "consistent interleavings; memory orders are checked as obligations on the regenerated site tables).",
+            "start_consumer / consume_until_empty incl. the _queue.size() test / join at atomic-operation granularity, "
+            "inner bounded queue as a ticketed FIFO whose push is ticket-then-publish and whose try_pop_n pops only the "
+            "published prefix, exactly as in bounded_queue.hpp), for every client program, every number of producers, "
+            "every capacity >= 1, inline and asynchronous executors, every fault list of the executor and every "
+            "schedule: the event counter is non-zero exactly when there is one owner (a launched/running consumer or a "
+            "producer inside start_consumer), hence the consume function never runs in two places; every ticket is "
+            "delivered at most once, in ticket order, producers' items in submission order; every signalled item that "
+            "is not yet delivered has an owner working for it (never stranded); a join() that returns finds every item "
+            "whose execute() had returned delivered (and, with a never-refusing executor, every join result in every "
+            "history is 0 missing); at the end of every run every item was consumed exactly once, also after refused "
+            "launches once a later launch was accepted; no reachable state with an unfinished thread is a deadlock "
+            "unless a refused launch is outstanding, and a waiting join() always has an enabled owner.  The comparison "
+            "operators, CAS operands, initial values, the size() test and formula, and the memory orders are "
+            "regenerated from execution_queue.h / bounded_queue.hpp on every run.  Tie: the real "
+            "ConcurrentExecutionQueue<uint64_t> with the real ConcurrentBoundedQueue runs under a deterministic "
+            "scheduler pre-empting at every atomic operation, with a harness Executor that refuses launches per fault "
+            "list; each observed outcome (return codes, join result, delivery order) must be one the extracted model "
+            "admits (exhaustive exploration per small program); monitors check the property text directly on every run.",
+    "note": "All sentences of the property are proved at full strength except the last step of liveness: 'join() does "
+            "return' is proved as deadlock-freedom of every reachable state plus 'the owner of a non-zero counter is "
+            "enabled'; termination under a fair scheduler is the standard argument on top of that and is not mechanised "
+            "(the scheduler runs and the exhaustive model exploration - no STUCK outcome without a refused launch - cover "
+            "it empirically).  'stale = false' (last reset of the counter was a consumer's exit) is the formal reading "
+            "of 'as long as the executor accepts the launch'.  Fixed defect (f78c0c5, was signature ticket-gap): the "
+            "consumer used to give up its role when try_pop_n stopped at a taken-but-unpublished ticket; a recurrence is "
+            "reported by the covered/join monitors as a violation and re-opens c16_never_stranded (translator target "
+            "keep_role_while_tickets_out).  Exactly-once relies on C01 (the inner queue delivers each ticket's value to "
+            "the pop of that ticket).  Trusted: Coq kernel; translator; extraction + OCaml explorer; macro shim and "
+            "dsched (sequentially consistent interleavings; memory orders are checked as obligations on the "
+            "regenerated site tables).",
 }
 
 FIXED_SMALL = [
@@ -170,13 +168,12 @@ def main(argv):
             "order": "items of one producer were consumed out of submission order",
             "single": "the consume function was entered while another invocation was still inside",
             "covered": "an item whose execute() returned is pending with no running or launched consumer and no "
-                       "launcher, no refused launch outstanding, no execute() holding the head ticket",
+                       "launcher and no refused launch outstanding",
             "join": "join() returned while an item whose execute() had returned before join() was called was not consumed",
             "final": "an item was never consumed although the last reset of the event counter was a consumer's exit",
             "idle": "the run ended with a non-zero event counter or a live consumer"}
     validated = 0
     distinct = set()
-    gap_hits = 0
     for cid, l in impl_out.items():
         pid, cap, mode, faults, prog, small, seed, strat = meta[cid]
         rep = {"cap": cap, "mode": mode, "faults": faults, "program": prog, "seed": seed, "strategy": strat,
@@ -198,11 +195,6 @@ def main(argv):
         for m in MON:
             if mon.get(m) != "1":
                 chk.violate("mon-" + m, WHAT[m] + ": " + parts[1] + " [" + prog + " cap=%d %s faults=%s]" % (cap, mode, faults), rep)
-        if mon.get("gapok") != "1":
-            gap_hits += 1
-            chk.violate("ticket-gap", "consumer exited / join() returned while a published, signalled item is pending "
-                        "behind a ticket that is taken but not yet published/signalled: " + parts[1] +
-                        " [" + prog + " cap=%d %s]" % (cap, mode), rep)
         outcome = parts[1] + " stale=" + mon.get("stale", "?")
         distinct.add((pid, outcome))
         if small and pid in model_sets:
@@ -216,7 +208,6 @@ def main(argv):
     chk.cov["traces_validated_against_impl"] = validated
     chk.cov["states"] = states
     chk.cov["transitions"] = trans
-    chk.cov["ticket_gap_hits"] = gap_hits
     chk.cov["rule"] = ("case = (client program, capacity, executor mode, fault list, schedule seed, strategy); programs are "
                        "18 fixed boundary programs (join racing a slower producer, refused launch + recovery signal, "
                        "capacity 1) plus seeded random mixes of execute / join / signal_push_event over 2-5 threads, "
